@@ -447,7 +447,8 @@ def timetables(durations=(0, 0.5, 1, 2), max_len=3):
 def SCHED(schedule, cyclical, prereg=(), K=0, horizon=6, second=None):
     '''One scheduler, two plain objects; registrations before the run (prereg) and injected during it.'''
     devs = [obj('o1'), obj('o2'), sched('A', schedule, cyclical, prereg)]
-    ops = [('reg', 'A', 'o1', 'default'), ('reg', 'A', 'o2', 'override'), ('unreg', 'A', 'o1'), ('unreg', 'A', 'o2')]
+    ops = [('reg', 'A', 'o1', 'default'), ('reg', 'A', 'o2', 'override'), ('unreg', 'A', 'o1'), ('unreg', 'A', 'o2'),
+           ('reg', 'A', 'o1', 'override')]
     if second is not None:
         devs.append(sched('B', second, True, [('o1', 'default')]))
     tag = ','.join(f'{d}{s}' for d, s in schedule)
@@ -484,7 +485,7 @@ def SENS(K=0, horizon=5, interval=1, cap=2, n=1, ocap=None, callbacks=2, cms_twi
     wo = {'x': [1, 1, 0]}
     devs = [src('S', 1, qualities=[1, 0.5, 0.25, 0.75], values=[1, 2, 3]), proc('M1', ['S'], 1, wo=wo, dq=-0.25, auto_repair='x'),
             sink('K', ['M1']), maint(1), obj('o1'),
-            psensor('P', interval, [('o1', 'x'), ('o1', 'n')], cap, callbacks),
+            psensor('P', interval, [('o1', 'x'), ('o1', 'n'), ('o1', 'r')], cap, callbacks),
             osensor('O', 'M1', ['quality', 'id'], n, ocap, 1)]
     if placeholder:
         devs[-1]['placeholder'] = placeholder
@@ -520,6 +521,7 @@ LATE_DEVICES = [
     batcher('PB2', ['S'], 2),                       # 12
     gate('G2', ['PB2'], 'all'),                     # 13
     sink('K5', ['G2']),                             # 14
+    sink('K9', ['M1']),                             # 15  a second sink behind the existing machine
 ]
 
 
@@ -742,3 +744,106 @@ def RES2(K=0, horizon=6, ops=None):
     if ops is None:
         ops = [('addres', 'r', -2), ('addres', 'r', -1), ('addres', 'r', 1), ('fail', 'M1', 0), ('restore', 'M1')]
     return spec(f'RES2[K{K}]', devs, horizon, ops, K, pools={'r': 2})
+
+
+# ---------------------------------------------------------------------------- rows added after the third seeded round
+
+def GRPIN(K=0, horizon=6, ops=None):
+    '''A group with two parallel input machines (input override) and a final device that is the group's default output.'''
+    devs = [proc('A1', [], 1), proc('A2', [], 2), proc('F', ['A1', 'A2'], 1),
+            group('G', ['A1', 'A2', 'F'], ['A1', 'A2'], None),
+            src('S', 0.5), path('a', 'G', ['S']), sink('K', ['a'])]
+    if ops is None:
+        ops = [('fail', 'A1', 0), ('restore', 'A1'), ('block', 'a', True), ('block', 'a', False)]
+    return spec(f'GRPIN[K{K}]', devs, horizon, ops, K)
+
+
+def REGRADE(K=1, horizon=6, ops=None):
+    '''Complementary gates behind a machine; the part waiting in the machine's output is re-graded while both
+    routes are busy, so the SAME part is offered to a gate twice with a different answer due.'''
+    devs = [src('S', 1, qualities=[0, 0, 1, 0]), proc('P', ['S'], 1),
+            gate('Gge', ['P'], 'q_ge'), gate('Glt', ['P'], 'q_lt'),
+            proc('A', ['Gge'], 3), sink('K1', ['A']), proc('Bm', ['Glt'], 3), sink('K2', ['Bm'])]
+    if ops is None:
+        ops = [('requal', 'P', 1), ('requal', 'P', 0), ('fail', 'Bm', 0), ('restore', 'Bm')]
+    return spec(f'REGRADE[K{K}]', devs, horizon, ops, K)
+
+
+def FANGATE(K=2, horizon=8, ops=None):
+    '''Parallel candidates of which one sits behind a pass-through gate whose input is blocked and unblocked.'''
+    devs = [src('S', 2), gate('G', ['S'], 'all'), proc('M1', ['G'], 1), proc('M2', ['S'], 3), sink('K', ['M1', 'M2'])]
+    if ops is None:
+        ops = [('block', 'G', True), ('block', 'G', False)]
+    return spec(f'FANGATE[K{K}]', devs, horizon, ops, K)
+
+
+def RES3(K=0, horizon=7, ops=None):
+    '''Three processors behind one source competing for ONE unit: two of them wait in the queue of the pool.'''
+    devs = [src('S', 0.5), proc('M1', ['S'], 2, resources={'r': 1}), proc('M2', ['S'], 2, resources={'r': 1}),
+            proc('M3', ['S'], 2, resources={'r': 1}), sink('K', ['M1', 'M2', 'M3'])]
+    if ops is None:
+        ops = [('block', 'M2', True), ('block', 'M2', False), ('shutdown', 'M2'), ('restore', 'M2'), ('fail', 'M2', 0)]
+    return spec(f'RES3[K{K}]', devs, horizon, ops, K, pools={'r': 1})
+
+
+def BLOCKED_OUT_SCRIPT(K=0, horizon=8, ops=None):
+    '''A finished part refused by a slow consumer; the machine is shut down (scripted) while it waits, the consumer
+    frees up during the outage, the machine is restored afterwards.'''
+    devs = [src('S', 1), proc('M1', ['S'], 1), sink('K', ['M1'], 3)]
+    if ops is None:
+        ops = [('fail', 'M1', 0), ('block', 'K', True), ('block', 'K', False)]
+    s = spec(f'BLOCKEDOUTSCRIPT[K{K}]', devs, horizon, ops, K)
+    s['script'] = [[3.5, 2, ['shutdown', 'M1']], [5.5, 2, ['restore', 'M1']]]
+    s['probes'] = 3
+    return s
+
+
+def BUFGATE(K=0, horizon=6, ops=None):
+    '''A buffer in front of complementary gates: whether the head is refused depends on the part.'''
+    devs = [src('S', 0.5, qualities=[0, 0, 1, 0, 1]), buf('B', ['S'], 3), gate('Gge', ['B'], 'q_ge'), gate('Glt', ['B'], 'q_lt'),
+            proc('A', ['Gge'], 1), proc('Bm', ['Glt'], 3), sink('K', ['A', 'Bm'])]
+    if ops is None:
+        ops = [('fail', 'A', 0), ('restore', 'A')]
+    return spec(f'BUFGATE[K{K}]', devs, horizon, ops, K)
+
+
+def OFFSETS2(K=0, horizon=7, ops=None):
+    '''Several one-shot offsets accumulated for ONE cycle (intermediate sums below -cycle_time), cycle time raised afterwards.'''
+    devs = [src('S', 1), proc('M1', ['S'], 2, cycles=[2, 3, 1], offsets=[[-3, 2], [-4, 3.5], [1, -0.5]]), sink('K', ['M1'])]
+    if ops is None:
+        ops = [('shutdown', 'M1'), ('restore', 'M1')]
+    return spec(f'OFFSETS2[K{K}]', devs, horizon, ops, K)
+
+
+def VALUE_FRAC(K=0, horizon=5, ops=None):
+    '''Amounts with many decimals booked repeatedly (deliberately not dyadic), a price that changes from order to order,
+    two maintainers with the same user-given name.'''
+    wo = {'x': [1, 0.5, [3, 5, 1.25]]}
+    spare = maint(1, name='mt_spare', value=7)
+    spare['asset_name'] = 'mt'
+    spare['spare'] = True
+    devs = [spare, src('S', 0.5, values=[1 / 3, 0.1234567891234, 2 / 7]), proc('P1', ['S'], 0.5, dv=1 / 7, wo=wo, auto_repair='x'),
+            sink('K', ['P1']), maint(1, value=10)]
+    if ops is None:
+        ops = [('wo', 'P1', 'x'), ('fail', 'P1', 0)]
+    return spec(f'VALUEFRAC[K{K}]', devs, horizon, ops, K)
+
+
+def INITCREATE(K=0, horizon=4):
+    '''An asset created from inside another asset's initialize(): a scheduler whose start-up action (run during the
+    one-time initialisation of the assets) creates a sink and a periodic sensor.'''
+    devs = [src('S', 1), proc('M1', ['S'], 1), sink('K', ['M1']), obj('o1'),
+            {'kind': 'scheduler', 'name': 'A', 'schedule': [[1, 'a'], [1, 'b']], 'cyclical': True,
+             'targets': [['o1', 'creator']], 'creates': [15, 7]}]
+    s = spec(f'INITCREATE[K{K}]', devs, horizon, [('fail', 'M1', 0), ('restore', 'M1')], K)
+    s['late'] = LATE_DEVICES
+    return s
+
+
+def EMPTYBATCH_SCRIPT(K=0, horizon=6):
+    '''Items with different part counts (batches of 2, single parts, empty batches) pile up in a buffer behind a sink
+    whose input is blocked (scripted) and leave in ONE release call when it is unblocked.'''
+    devs = [src('S', 0.5, pattern=[2, None, 0, 3]), buf('B', ['S'], 8), sink('K', ['B'])]
+    s = spec(f'EMPTYBATCHSCRIPT[K{K}]', devs, horizon, [('block', 'B', True), ('block', 'B', False)], K)
+    s['script'] = [[0.75, 2, ['block', 'K', True]], [3.25, 2, ['block', 'K', False]]]
+    return s
